@@ -17,11 +17,24 @@ class PathEnd(Exception):
 
 
 class Obligation:
-    __slots__ = ("label", "hyps", "goal", "kind", "props", "path", "func", "note")
+    __slots__ = ("label", "hyps", "goal", "kind", "props", "path", "func", "note", "dropped", "full_hyps")
 
-    def __init__(self, label, hyps, goal, kind, props, path, func, note=""):
+    def __init__(self, label, hyps, goal, kind, props, path, func, note="", dropped=0, full_hyps=None):
         self.label, self.hyps, self.goal, self.kind = label, hyps, goal, kind
         self.props, self.path, self.func, self.note = props, path, func, note
+        self.dropped = dropped
+        self.full_hyps = full_hyps  # the declared (complete) scope, tried when the minimal scope is not enough
+
+    def smt2_full(self, extra=()):
+        if self.full_hyps is None:
+            return None
+        s = z3.Solver()
+        for h in self.full_hyps:
+            s.add(h)
+        for h in extra:
+            s.add(h)
+        s.add(z3.Not(self.goal))
+        return s.to_smt2()
 
     def smt2(self, extra=()):
         s = z3.Solver()
@@ -43,6 +56,8 @@ class Ctx:
         self.taken: list[bool] = []
         self.new_prefixes: list[list[bool]] = []
         self.hyps: list[z3.BoolRef] = []
+        self.hyp_tags: list[str] = []
+        self.tag = ""  # current default tag for assumptions (axiom scoping, DESIGN 3.5)
         self.obligations: list[Obligation] = []
         self.solver = z3.Solver()
         self.solver.set("timeout", self.BRANCH_TIMEOUT_MS)
@@ -68,12 +83,13 @@ class Ctx:
         return z3.Function(f"{name}!{self._n}", *sorts)
 
     # ---- assumptions
-    def assume(self, f):
+    def assume(self, f, tag=None):
         if isinstance(f, Sym):
             f = f.e
         if z3.is_true(f):
             return
         self.hyps.append(f)
+        self.hyp_tags.append(tag if tag is not None else self.tag)
         self.solver.add(f)
 
     def _check(self, f):
@@ -126,13 +142,20 @@ class Ctx:
         return d
 
     # ---- obligations
-    def oblige(self, label, goal, kind="post", props=(), note=""):
+    def oblige(self, label, goal, kind="post", props=(), note="", drop=()):
+        """`drop`: tag prefixes of hypotheses left out of this obligation (axiom scoping: fewer hypotheses
+        can only make an obligation harder to discharge, never unsound)."""
         if isinstance(goal, Sym):
             goal = goal.e
         if isinstance(goal, bool):
             goal = z3.BoolVal(goal)
+        if drop:
+            hyps = [h for h, t in zip(self.hyps, self.hyp_tags) if not any(t.startswith(d) for d in drop)]
+        else:
+            hyps = list(self.hyps)
         self.obligations.append(
-            Obligation(label, list(self.hyps), goal, kind, tuple(props), tuple(self.events), self.func, note)
+            Obligation(label, hyps, goal, kind, tuple(props), tuple(self.events), self.func, note, len(self.hyps) - len(hyps),
+                       list(self.hyps) if len(hyps) != len(self.hyps) else None)
         )
 
     def note(self, s):
